@@ -219,7 +219,9 @@ def _cfg_manager(tier):
             if cls == "BalancedIncrementalQuantileFilter":
                 if pre == "arbitrary":
                     continue  # nonlinear real arithmetic (range * acq_left): does not finish within 4 min
-                out.append(dict(cls=cls, w=3, sizes=[2, 1], pre=pre, budget=0.5))
+                for wq in (1, 2, 3):   # small windows: the bounded history is full after one or two instances
+                    out.append(dict(cls=cls, w=wq, sizes=[2, 1], pre=pre, budget=0.5))
+                out.append(dict(cls=cls, w=1, sizes=[1, 2], pre=pre, budget=0.5))
                 if tier == "thorough":
                     out.append(dict(cls=cls, w=3, sizes=[2, 2, 1], pre=pre, budget=0.1))
                 continue
@@ -258,6 +260,9 @@ HARNESSES = [
              "skactiveml.base:SingleAnnotatorStreamQueryStrategy._validate_data"],
             required_witnesses=("some_granted", "some_refused")),
 ]
+
+from harness import density as _density  # noqa: E402
+HARNESSES = HARNESSES + _density.harnesses_c03()
 
 BOUNDS = dict(quick="scenarios of 2 chunks (sizes 2+1 and 1+2) with 1-3 interposed extra queries per step, w=3, symbolic budget, "
                     "symbolic utilities/features, symbolic seed; managers also from an arbitrary (symbolic) pre-state",
